@@ -135,6 +135,7 @@ def aave_world(frozen_bar=1, n=4):
         ("aave.supply[WETH,part,C]", "aave.borrow[USDC,third]"),
         ("aave.supply[WETH,part,C]", "aave.supply[USDC,part,C]", "aave.borrow[DAI,third]"),
         ("aave.supply[USDT,part,N]", "aave.supply[WETH,part,C]", "aave.borrow[USDC,near]"),
+        ("aave.supply[WBTC,part,C]", "aave.supply[USDC,small,C]", "aave.borrow[WETH,third]"),
     )
     fr = {f"aave.{k}": v for k, v in frames.items()}
     fr["prices"] = prices
@@ -296,7 +297,7 @@ def uni_aave_world(n=4):
     return World("uni+aave", build, roots, fr)
 
 
-def deribit_uni_world(hours=3, frozen_bar=0, extra_instruments=0):
+def deribit_uni_world(hours=3, frozen_bar=0, extra_instruments=0, drop_hours=()):
     """Hourly option market beside a minutely pool: bars are minutes, the option market is open on the hour only."""
     from . import deribit as db
 
@@ -309,7 +310,12 @@ def deribit_uni_world(hours=3, frozen_bar=0, extra_instruments=0):
     books = dict(db.STD_BOOKS)
     for i in range(extra_instruments):  # a realistic option chain has far more rows per hour than the co-market has minutes
         books[f"X{i:02d}"] = dict(kind="CALL", strike=3000 + 10 * i, mark=0.01, asks=[[0.0105, 1]], bids=[], fixed=True)
-    odata = _raw("deribit.raw", db.std_frame(hours, books=books))
+    oframe = db.std_frame(hours, books=books)
+    if drop_hours:
+        # hours the collector missed: no book at all for them, inside the history
+        t = oframe.index.get_level_values(0)
+        oframe = oframe.loc[~t.isin([t.min() + pd.Timedelta(hours=h) for h in drop_hours])]
+    odata = _raw("deribit.raw", oframe)
     prices = db.price_frame(odata).loc[data.index[0]:data.index[-1]].copy()
     up = _decimal_prices(price_df)
     prices["WETH"] = up["WETH"]
@@ -325,6 +331,8 @@ def deribit_uni_world(hours=3, frozen_bar=0, extra_instruments=0):
         return ctx
 
     name = ("deribit+uni" if not extra_instruments else "deribit(many)+uni") if frozen_bar % 60 == 0 else "deribit+uni(closed)"
+    if drop_hours:
+        name = "deribit(gap)+uni"
     roots = ((), ("deribit.deposit[part]", "deribit.buy[C1,2,market]"), ("uni.add[in,part,part]", "deribit.deposit[part]", "deribit.buy[P1,1,market]"))
     if frozen_bar % 60 != 0:
         roots = ((), ("deribit.deposit[part]",))  # frozen between two hours: the option market is closed, every write must be refused and change nothing
